@@ -3,7 +3,9 @@ package verifh
 import (
 	"bytes"
 	"encoding/hex"
+	"io"
 	"os"
+	"os/exec"
 	"path/filepath"
 	"strings"
 	"testing"
@@ -55,7 +57,7 @@ func serveWhole(t *testing.T, root, wirePath string) (data []byte, size int64, w
 func TestC20(t *testing.T) {
 	r := NewReporter(t)
 	defer r.Done()
-	r.Rule("make-iso on every tree with <= N nodes in both modes and on size families: output file = library image = served image (variable fields masked), also to stdout; decrypt redump / 3k3y on images over region tables x keys: output = reference plaintext (region table cleared; 3k3y area zeroed), to a file and to '-', and served back unchanged from PS3ISO and elsewhere; existing targets {file, directory, symlink to file} x 3 commands keep hash/size/mtime and the tool exits non-zero; distinct by case description")
+	r.Rule("make-iso on every tree with <= N nodes in both modes and on size families: output file = library image = served image (variable fields masked), also to stdout; decrypt redump / 3k3y on images over region tables x keys: output = reference plaintext (region table cleared; 3k3y area zeroed), to a file and to '-', and served back unchanged from PS3ISO and elsewhere; existing targets {file, directory, symlink to file} x 3 commands keep hash/size/mtime and the tool exits non-zero; output '-' with standard output being an existing file (append / positioned at end) x 3 commands x {succeeding, failing} run keeps the existing bytes in front; distinct by case description")
 	base := filepath.Join(scratchBase(), sprintf("verifh-c20-%d", os.Getpid()))
 	defer os.RemoveAll(base)
 	env := cleanEnv(base)
@@ -375,6 +377,86 @@ func TestC20(t *testing.T) {
 				viol("existing-target-exit-zero:"+kind, sprintf("%s: exit status %d (err %v), want non-zero", key, code, err), rep)
 			} else {
 				r.Outcome("existing-target-kept")
+			}
+		}
+	}
+	// ---------- (4) output '-' while standard output is an existing file (`tool ... - >> collected.bin`) ----------
+	// whatever the run does - succeed or fail after the arguments were accepted - the bytes that were already in the
+	// file stay in front; a successful run appends exactly the image
+	for _, cmd := range []string{"make-iso", "decrypt-redump", "decrypt-3k3y"} {
+		for _, outcome := range []string{"succeeds", "fails"} {
+			for _, mode := range []string{"append", "positioned-at-end"} {
+				idx++
+				if !r.Mine(idx) {
+					continue
+				}
+				os.RemoveAll(base)
+				must(os.MkdirAll(filepath.Join(base, "src", "T"), 0o755))
+				mkFileAbs(filepath.Join(base, "src", "T", "a.bin"), 5000, 1, baseTime)
+				pairs := []uint32{0, 2, 5, 7, 10, 11}
+				plain := patBytes(78, 0, 12*2048)
+				copy(plain, regionTable(pairs))
+				copy(plain[0xF70:], wmEnc)
+				copy(plain[0xF80:], c10Keys[2])
+				writeFileAbs(filepath.Join(base, "src", "enc.iso"), buildEncImage(plain, pairs, c10Keys[2]), baseTime)
+				writeFileAbs(filepath.Join(base, "src", "plainfile.iso"), patBytes(3, 0, 12*2048), baseTime)
+				writeFileAbs(filepath.Join(base, "src", "enc.dkey"), []byte(hex.EncodeToString(c10Keys[2])), baseTime)
+				writeFileAbs(filepath.Join(base, "src", "short.dkey"), []byte("abcd"), baseTime)
+				var args []string
+				switch cmd + "/" + outcome {
+				case "make-iso/succeeds":
+					args = []string{"make-iso", filepath.Join(base, "src", "T"), "-"}
+				case "make-iso/fails": // PS3 mode needs PS3_GAME/PARAM.SFO
+					args = []string{"make-iso", "--ps3-mode", filepath.Join(base, "src", "T"), "-"}
+				case "decrypt-redump/succeeds":
+					args = []string{"decrypt", "redump", filepath.Join(base, "src", "enc.iso"), filepath.Join(base, "src", "enc.dkey"), "-"}
+				case "decrypt-redump/fails":
+					args = []string{"decrypt", "redump", filepath.Join(base, "src", "enc.iso"), filepath.Join(base, "src", "short.dkey"), "-"}
+				case "decrypt-3k3y/succeeds":
+					args = []string{"decrypt", "3k3y", filepath.Join(base, "src", "enc.iso"), "-"}
+				case "decrypt-3k3y/fails": // no 3k3y watermark
+					args = []string{"decrypt", "3k3y", filepath.Join(base, "src", "plainfile.iso"), "-"}
+				}
+				collected := filepath.Join(base, "collected.bin")
+				old := patBytes(11, 0, 3500)
+				writeFileAbs(collected, old, baseTime)
+				flags := os.O_WRONLY | os.O_APPEND
+				if mode == "positioned-at-end" {
+					flags = os.O_RDWR
+				}
+				outf, err := os.OpenFile(collected, flags, 0)
+				must(err)
+				if mode == "positioned-at-end" {
+					_, err = outf.Seek(0, io.SeekEnd)
+					must(err)
+				}
+				key := sprintf("stdout is an existing file (%s), %s %s", mode, cmd, outcome)
+				r.State(key)
+				r.Nontrivial(key)
+				r.Eval(1)
+				c := exec.Command(binPath(), args...)
+				c.Env, c.Dir, c.Stdout = env, base, outf
+				var eb strings.Builder
+				c.Stderr = &eb
+				runErr := c.Run()
+				outf.Close()
+				r.Transition(1)
+				rep := map[string]any{"case": key, "args": args}
+				now, err := os.ReadFile(collected)
+				must(err)
+				if len(now) < len(old) || !bytes.Equal(now[:len(old)], old) {
+					viol("stdout-file-clobbered:"+cmd, sprintf("%s: the file had %d bytes before the run and has %d now (first difference: %s); stderr: %s", key, len(old), len(now), describeDiff(now[:min(len(now), len(old))], old[:min(len(now), len(old))]), lastLines(eb.String(), 2)), rep)
+					continue
+				}
+				if (outcome == "succeeds") != (runErr == nil) {
+					viol("stdout-file-exit:"+cmd, sprintf("%s: run error %v; stderr: %s", key, runErr, lastLines(eb.String(), 3)), rep)
+					continue
+				}
+				if outcome == "succeeds" && len(now) == len(old) {
+					viol("stdout-file-nothing-written:"+cmd, key+": the run succeeded but appended nothing", rep)
+					continue
+				}
+				r.Outcome("stdout-file-kept:" + outcome)
 			}
 		}
 	}
